@@ -26,6 +26,7 @@ type ConcCase struct {
 	Tail    []Op      `json:"tail,omitempty"`   // executed by client 0 after the final read-back (gives the crash simulation crash points after it)
 	Reopen  bool      `json:"reopen,omitempty"` // then Close, Open and read everything again: it must equal what was read before Close
 	Dir     string    `json:"dir,omitempty"`    // crashsim: run in this directory (kept), log every invoke/ack
+	Client  string    `json:"client,omitempty"` // "" = inline; simgrpc = all clients share one external client over the simulated transport (handlers run on the server side, concurrently)
 	Walk    bool      `json:"walk,omitempty"`   // C14: after the final read-back run a collection pass to quiescence and compare the roots with the readable keys
 }
 
@@ -172,6 +173,9 @@ func concExec(c ConcCase, choices []int32) (RunOut, *concRun) {
 			return
 		}
 		cr.a = &actors{db: w.DB, txs: map[int]fs_db.Tx{}}
+		if c.Client == "simgrpc" && c.Dir == "" && newSimGrpcClient != nil {
+			cr.a.db = newSimGrpcClient(w)
+		}
 		for _, o := range c.Init {
 			cr.do(0, o)
 		}
@@ -219,6 +223,9 @@ func concExec(c ConcCase, choices []int32) (RunOut, *concRun) {
 				return
 			}
 			cr.a.db = w.DB
+			if c.Client == "simgrpc" && newSimGrpcClient != nil {
+				cr.a.db = newSimGrpcClient(w)
+			}
 			n := len(cr.hist)
 			for _, k := range c.Keys {
 				cr.do(0, Op{K: "get", Key: k})
